@@ -172,6 +172,9 @@ pub fn judge_c12(rec: &mut Recorder, c: &HistCase, ex: Exec, _hello: &Value) -> 
     for (li, l) in o.lifetimes.iter().enumerate() {
         let mut live: BTreeMap<u64, u64> = BTreeMap::new();
         let mut ever: BTreeSet<u64> = BTreeSet::new();
+        if let Some(e) = l.new_log.iter().find(|e| e.k == 2) {
+            return rec.fail(&sig("unmap-at-creation"), format!("lifetime {li}: munmap({:#x},{}) while the injector was being created: every trampoline of earlier lifetimes was already released at their exit, so this address is not the injector's to unmap; case {c:?}", e.a0, e.a1));
+        }
         for s in &l.steps {
             // replay this install's log: mappings obtained, rejected ones given back
             for e in &s.log {
